@@ -210,6 +210,32 @@ func GenStreamsR(rng *simrt.Rand, u *gen.Universe, prop string, lifecycle, reset
 		var ops []Op
 		removed := false
 		sinceReset := 99
+		// leaves this stream has written so far (full path, origin, value): a
+		// target that re-sends part of its state in one notification refreshes
+		// some leaves with the value they already hold and changes others
+		type sent struct {
+			full   []gen.Elem
+			origin string
+			val    gen.Val
+		}
+		var hist []sent
+		remember := func(nt *gen.Noti) {
+			if nt.Atomic {
+				return
+			}
+			for _, up := range nt.Ups {
+				if up.Origin != "" || up.NilPath {
+					continue
+				}
+				full := append(append([]gen.Elem(nil), nt.Prefix...), up.Path...)
+				if len(full) > 0 {
+					hist = append(hist, sent{full, nt.Origin, up.Val})
+				}
+			}
+			if len(hist) > 12 {
+				hist = hist[len(hist)-12:]
+			}
+		}
 		n := 1 + rng.Intn(maxOps)
 		if prop == "C02" && rng.Chance(0.3) {
 			n = 40 + rng.Intn(20)
@@ -266,7 +292,32 @@ func GenStreamsR(rng *simrt.Rand, u *gen.Universe, prop string, lifecycle, reset
 				ops = append(ops, Op{K: "upd", N: gen.HostileNoti(rng, u, tg, 90+int64(rng.Intn(50)))})
 				continue
 			}
-			ops = append(ops, Op{K: "upd", N: GenNoti(rng, u, tg, 90, 140, small, share)})
+			if len(hist) >= 2 && rng.Chance(0.1) {
+				// a partial re-send: several leaves written before, in one
+				// notification with a recent timestamp, most with the value they
+				// were last sent with
+				first := hist[rng.Intn(len(hist))]
+				nt := &gen.Noti{Target: tg, Origin: first.origin, TS: 125 + int64(rng.Intn(16))}
+				for i := 2 + rng.Intn(2); i > 0; i-- {
+					h := hist[rng.Intn(len(hist))]
+					if i > 1 && rng.Chance(0.5) {
+						h = first
+					}
+					v := h.val
+					if rng.Chance(0.35) {
+						v = gen.RandVal(rng, small)
+					}
+					nt.Ups = append(nt.Ups, gen.Upd{Path: append([]gen.Elem(nil), h.full...), Val: v})
+				}
+				if rng.Chance(0.5) {
+					nt.Ups[0], nt.Ups[len(nt.Ups)-1] = nt.Ups[len(nt.Ups)-1], nt.Ups[0]
+				}
+				ops = append(ops, Op{K: "upd", N: nt})
+				continue
+			}
+			nt := GenNoti(rng, u, tg, 90, 140, small, share)
+			remember(nt)
+			ops = append(ops, Op{K: "upd", N: nt})
 		}
 		streams = append(streams, ops)
 	}
